@@ -276,3 +276,37 @@ func init() {
 			Expect: []string{"C07.R1@"}},
 	)
 }
+
+// Round four (corpus G*): the count bytes live in an array that is sliced at each use.
+func init() {
+	const hash = "internal/utils/hash.go"
+	const fnvTail = "\t\tcollisionCountBytes := make([]byte, 8)\n" +
+		"\t\tbinary.LittleEndian.PutUint32(\n" +
+		"\t\t\tcollisionCountBytes, uint32(*collisionCount))\n" +
+		"\t\thasher.Write(collisionCountBytes)\n" +
+		"\t}\n\n" +
+		"\treturn rand.SafeEncodeString("
+	arr := func(fill, write, extra string) string {
+		return "\t\tvar collisionCountBytes [8]byte\n" + extra +
+			"\t\tbinary.LittleEndian.PutUint32(\n" +
+			"\t\t\tcollisionCountBytes[" + fill + "], uint32(*collisionCount))\n" +
+			"\t\thasher.Write(" + write + ")\n" +
+			"\t}\n\n" +
+			"\treturn rand.SafeEncodeString("
+	}
+	addMutants(
+		Mutant{Prop: "C07", Name: "r5-benign-count-bytes-in-array", File: hash, Benign: true,
+			Old: fnvTail, New: arr(":", "collisionCountBytes[:]", "")},
+		Mutant{Prop: "C07", Name: "r5-array-zero-half-written", File: hash,
+			Why: "the upper, never filled half of the buffer is hashed: the count does not enter the hash",
+			Old: fnvTail, New: arr(":", "collisionCountBytes[4:]", ""),
+			Expect: []string{"C07.R5@internal/utils.ComputeFNV32Hash#collision-count-hashed"}},
+		Mutant{Prop: "C07", Name: "r5-array-other-buffer-written", File: hash,
+			Old: fnvTail, New: arr(":", "zero[:]", "\t\tvar zero [8]byte\n"),
+			Expect: []string{"C07.R5@internal/utils.ComputeFNV32Hash#collision-count-hashed"}},
+		Mutant{Prop: "C07", Name: "r5-array-count-cut-off", File: hash,
+			Why: "the count is stored at offset 4, only bytes 0..5 are hashed: counts above 65535 collide",
+			Old: fnvTail, New: arr("4:", "collisionCountBytes[:6]", ""),
+			Expect: []string{"C07.R5@internal/utils.ComputeFNV32Hash#collision-count-hashed"}},
+	)
+}
